@@ -6,6 +6,7 @@ densities / acceptance; the reversibility theorem itself is cited (A-MATH), not 
 from __future__ import annotations
 
 import types
+from vt.stubs.ns import StubNS
 
 import jax.tree_util as real_jtu
 import z3
@@ -77,8 +78,8 @@ def grad_at(z):
 JNP = jnp_stub.namespace()
 mcmc.jnp = JNP
 mcmc.jtu = jtu_stub.namespace()
-mcmc.jax = types.SimpleNamespace(
-    lax=types.SimpleNamespace(select=lax_stub.select, scan=lax_stub.scan),
+mcmc.jax = StubNS(
+    lax=StubNS(select=lax_stub.select, scan=lax_stub.scan),
     grad=grad_stub,
     tree_util=jtu_stub.namespace(),
 )
@@ -641,3 +642,8 @@ def mentions_const(e, c):
 from vt.contract import track as _track  # noqa: E402
 
 _track(SAVE.calls, SAVE_LANES, GRADS, (UNI, "sample_calls"), (UNI, "logpdf_calls"), (NRM, "sample_calls"), (NRM, "logpdf_calls"))
+
+from vt.contract import canary as _canary  # noqa: E402
+
+_canary(MH, "default", "result_is_leafwise_select(accept, proposed, current)_with_MH_acceptance")
+_canary(ChainSingle, "simple_kernel", "retained_state_j_is_iterate_burn_in_plus_j_thinning")
